@@ -264,17 +264,42 @@ def build_cnl_nests(alts, struct, mus, syntax='obj', pform='float', aform='float
 
 NESTED_MODELS = ['nested', 'lognested', 'nested_mev_mu', 'lognested_mev_mu']
 CNL_MODELS = ['cnl', 'logcnl', 'cnlmu', 'logcnlmu']
+# exported backward-compatible names of the same models (they must return exactly the model of the new name)
+NESTED_ALIASES = ['nestedMevMu', 'lognestedMevMu']
+CNL_ALIASES = ['cnl_avail', 'logcnl_avail']
+# exported helpers returning the dict of ln G_i; '<mev|logmev>+<helper>' is the MEV model built by the user from them
+NESTED_HELPERS = ['get_mev_for_nested', 'getMevForNested', 'get_mev_for_nested_mu', 'getMevForNestedMu']
+CNL_HELPERS = ['get_mev_for_cross_nested', 'getMevForCrossNested', 'get_mev_for_cross_nested_mu', 'getMevForCrossNestedMu']
 LOG_OF = {'loglogit': 'logit', 'lognested': 'nested', 'lognested_mev_mu': 'nested_mev_mu', 'logcnl': 'cnl',
-          'logcnlmu': 'cnlmu', 'logmev': 'mev'}
+          'logcnlmu': 'cnlmu', 'logmev': 'mev', 'lognestedMevMu': 'nestedMevMu', 'logcnl_avail': 'cnl_avail'}
+LOG_OF.update({f'logmev+{h}': f'mev+{h}' for h in NESTED_HELPERS + CNL_HELPERS})
+
+
+def uses_mu(model):
+    """entry points that take the scale parameter mu"""
+    return model.lower().endswith('mu')
+
+
+def call_helper(helper, V, av, nests, mu=None):
+    from biogeme import models
+    if uses_mu(helper):
+        return getattr(models, helper)(V, av, nests, mu)
+    return getattr(models, helper)(V, av, nests)
 
 
 def build_model(model, V, av, nests, choice, mu=None, log_gi=None):
     from biogeme import models
+    if '+' in model:
+        # MEV model assembled by the user from the library's own ln G_i helper
+        outer, helper = model.split('+')
+        if log_gi is None:
+            log_gi = call_helper(helper, V, av, nests, mu)
+        return getattr(models, outer)(V, log_gi, av, choice)
     if model in ('logit', 'loglogit'):
         return getattr(models, model)(V, av, choice)
-    if model in ('nested', 'lognested', 'cnl', 'logcnl'):
+    if model in ('nested', 'lognested', 'cnl', 'logcnl', 'cnl_avail', 'logcnl_avail'):
         return getattr(models, model)(V, av, nests, choice)
-    if model in ('nested_mev_mu', 'lognested_mev_mu', 'cnlmu', 'logcnlmu'):
+    if model in ('nested_mev_mu', 'lognested_mev_mu', 'cnlmu', 'logcnlmu', 'nestedMevMu', 'lognestedMevMu'):
         return getattr(models, model)(V, av, nests, choice, mu)
     if model in ('mev', 'logmev'):
         return getattr(models, model)(V, log_gi, av, choice)
@@ -432,6 +457,32 @@ def shape_of(spec):
     return tag
 
 
+HIST_TAG = 'after-earlier-calls-with-the-same-argument-objects'
+
+
+def key_tail(spec):
+    """last part of the finding key: structure class + forms class; for a call that is not the first one of a history
+    made on shared argument objects, the history class instead."""
+    h = spec.get('hist')
+    if h and h.get('later'):
+        return HIST_TAG
+    return f'{shape_of(spec)}|{forms_tag(spec)}'
+
+
+def key_model(spec):
+    """model part of the finding key: the entry point; for a later call of a history the family of the entry point
+    (a side effect of one call shows in every entry point called afterwards: one defect, a handful of keys)"""
+    m = spec['model']
+    h = spec.get('hist')
+    if not (h and h.get('later')):
+        return m
+    if m in ('logit', 'loglogit'):
+        return 'logit-family'
+    if m in ('mev', 'logmev'):
+        return 'user-mev-family'
+    return 'cross-nested-family' if ('cnl' in m or 'cross' in m.lower()) else 'nested-family'
+
+
 def forms_tag(spec):
     f = dict(default_forms(), **spec.get('forms', {}))
     d = default_forms()
@@ -451,11 +502,16 @@ def check_values(spec, table, vals, ref, rec, log_model=False, collect=None):
 
     def emit(clause, g, detail, expected, observed):
         grp = table.describe_group(g)
-        key = f'{ID}|{clause}|{model}|{shape_of(spec)}|{forms_tag(spec)}'
-        case = dict(part='spec', spec=spec, group=grp, base=table.describe_group(table.base_of[g]))
+        key = f'{ID}|{clause}|{key_model(spec)}|{key_tail(spec)}'
+        hist_txt = ''
+        if spec.get('hist'):
+            case = dict(part='hist', hist=spec['hist'], group=grp)
+            hist_txt = f'; call {spec["hist"]["step"] + 1} of the history {spec["hist"]["history"]} made with the same argument objects'
+        else:
+            case = dict(part='spec', spec=spec, group=grp, base=table.describe_group(table.base_of[g]))
         rec.violation(key, f'{clause}: model {model} {detail} at u={grp["u"]} avail={grp["avail"]} shift={grp["shift"]} '
                            f'(alts {alts}, structure alone={spec.get("alone")} nests={spec.get("nests")} mus={spec.get("mus")} '
-                           f'mu={spec.get("mu")})', case, expected=expected, observed=observed)
+                           f'mu={spec.get("mu")}{hist_txt})', case, expected=expected, observed=observed)
         if collect is not None:
             collect.append(key)
 
@@ -519,10 +575,17 @@ def record_cases(spec, table, vals, bad, rec):
         nt = nontrivial_group(spec, pat)
         key = None
         if nt:
-            key = json.dumps([spec['model'], spec['alts'], spec.get('alone'), spec.get('nests'), spec.get('mus'),
-                              spec.get('mu'), spec.get('gen'), spec.get('forms'), pat], sort_keys=True, default=list)
+            key = [spec['model'], spec['alts'], spec.get('alone'), spec.get('nests'), spec.get('mus'),
+                   spec.get('mu'), spec.get('gen'), spec.get('forms'), pat]
+            if spec.get('hist'):
+                key.append([spec['hist']['history'], spec['hist']['step']])
+            key = json.dumps(key, sort_keys=True, default=list)
         ok = not any(bad[g] for g in gs)
-        rec.case(key, None, outcome=(spec['model'], sum(pat), nt, ok))
+        if spec.get('hist'):
+            rec.case(key, None, outcome=(spec['model'], sum(pat), nt, ok, 'history', len(spec['hist']['history']),
+                                         bool(spec['hist'].get('later'))))
+        else:
+            rec.case(key, None, outcome=(spec['model'], sum(pat), nt, ok))
         rec.evals += len(gs) - 1
     rec.count('probability_vectors_compared', n_groups)
     rec.count('engine_calls')
@@ -538,10 +601,14 @@ def compare_log_pair(spec, table, vals_p, vals_l, rec):
         m |= ~fin & ~(lp == vals_l)
     for g in np.nonzero(m.any(axis=1))[0][:1]:
         grp = table.describe_group(int(g))
-        key = f'{ID}|log-model-differs-from-log-of-probability|{spec["model"]}|{shape_of(spec)}|{forms_tag(spec)}'
+        key = f'{ID}|log-model-differs-from-log-of-probability|{key_model(spec)}|{key_tail(spec)}'
+        if spec.get('hist'):
+            case = dict(part='hist', hist=spec['hist'], group=grp)
+        else:
+            case = dict(part='spec', spec=spec, group=grp, base=grp)
         rec.violation(key, f'{spec["model"]} != ln({LOG_OF[spec["model"]]}) at u={grp["u"]} avail={grp["avail"]}: '
                            f'{vals_l[g].tolist()} vs ln {vals_p[g].tolist()}',
-                      dict(part='spec', spec=spec, group=grp, base=grp), expected=lp[g].tolist(), observed=vals_l[g].tolist())
+                      case, expected=lp[g].tolist(), observed=vals_l[g].tolist())
 
 
 def run_family(base_spec, models, table, rec, extra_cols=None):
@@ -641,6 +708,8 @@ def tasks(tier, seed):
         for model in ('ordered_logit', 'ordered_probit'):
             t.append(dict(part='ordered', K=K, model=model, seed=seed, tier=tier))
     t.append(dict(part='ordered_tail', seed=seed, tier=tier))
+    # (G) histories of calls on one set of argument objects; every exported entry point (aliases, ln G_i helpers)
+    t += hist_tasks(alph, tier, seed)
     return t
 
 
@@ -675,6 +744,8 @@ def run_task(task):
         _part_ordered(task, alph, rec)
     elif part == 'ordered_tail':
         _part_ordered_tail(task, alph, rec)
+    elif part == 'hist':
+        _part_hist(task, alph, rec)
     else:
         raise ValueError(part)
     return rec.result()
@@ -798,6 +869,15 @@ def forms_for(si, n):
     return out
 
 
+def other_entry_points(kind, k, scale):
+    """(model, mu) list: the backward-compatible names and the MEV model (probability and log) assembled from one of the
+    four ln G_i helpers, the helper rotating with k"""
+    aliases, helpers = (NESTED_ALIASES, NESTED_HELPERS) if kind == 'nested' else (CNL_ALIASES, CNL_HELPERS)
+    h = helpers[k % len(helpers)]
+    ms = [f'mev+{h}', f'logmev+{h}'] + aliases
+    return [(m, scale if uses_mu(m) else None) for m in ms]
+
+
 def _part_nested_forms(task, alph, rec):
     J = task['J']
     tier = task['tier']
@@ -810,9 +890,13 @@ def _part_nested_forms(task, alph, rec):
         # parameter assignment rotates with the structure index
         mus = [alph['mus'][(si + k + 1) % 3] for k in range(len(nests))]
         base = dict(kind='nested', alts=alts, alone=list(alone), nests=[list(n) for n in nests], mus=mus)
-        for forms in forms_for(si, nforms):
+        for k, forms in enumerate(forms_for(si, nforms)):
             for table in tables_for_forms(alph, J, forms['u'], forms['av']):
                 run_family(dict(base, forms=forms), models, table, rec)
+                # the other exported entry points of the same models (backward-compatible names; MEV model assembled from
+                # the ln G_i helpers), nests given in the old tuple syntax or as objects
+                run_family(dict(base, forms=dict(forms, syntax=('tuple', 'obj')[(si + k) % 2])),
+                           other_entry_points('nested', si + k, alph['scale'][1]), table, rec)
     rec.sample(dict(part='nested_forms', alts=alts, structures=task['structs']))
 
 
@@ -857,6 +941,8 @@ def _part_cnl_forms(task, alph, rec):
         for forms in forms_for(si, 1):
             for table in tables_for_forms(alph, J, forms['u'], forms['av']):
                 run_family(dict(base, forms=forms), models, table, rec)
+                run_family(dict(base, forms=dict(forms, syntax=('tuple', 'obj')[si % 2])),
+                           other_entry_points('cnl', si, alph['scale'][1]), table, rec)
     rec.sample(dict(part='cnl_forms', alts=alts, M=M, structures=task['structs'][:3]))
 
 
@@ -891,6 +977,291 @@ def _part_usermev(task, alph, rec):
             cols = user_logGi_columns(spec, table)
             run_family(spec, [('mev', None), ('logmev', None)], table, rec, extra_cols=cols)
     rec.sample(dict(part='usermev', alts=alts, generating_functions=len(gens)))
+
+
+# --------------------------------------------------------------------------- histories of calls on shared arguments
+# The model functions are pure: what a call returns depends on the values of its arguments only, not on the calls made
+# before with the same dict of utilities / dict of availabilities / nest object / dict of ln G_i / parameter objects
+# (the usual simulation loop ``{i: models.nested(V, av, nests, i) for i in V}``, or a probability followed by its
+# log-probability).  One history = a sequence of calls made with ONE set of argument objects; every expression is
+# evaluated after all the calls were made and must satisfy every clause of the property.
+
+def hist_entries(kind):
+    """the entry points that can be called with the argument objects of a context of this kind"""
+    out = ['logit', 'loglogit']
+    if kind == 'nested':
+        out += NESTED_MODELS + NESTED_ALIASES + [f'{o}+{h}' for h in NESTED_HELPERS for o in ('mev', 'logmev')]
+    elif kind == 'cnl':
+        out += CNL_MODELS + CNL_ALIASES + [f'{o}+{h}' for h in CNL_HELPERS for o in ('mev', 'logmev')]
+    else:
+        out += ['mev', 'logmev']
+    return out
+
+
+def hist_core_entries(kind):
+    """reduced alphabet of the depth-3 histories"""
+    if kind == 'nested':
+        return ['loglogit', 'nested', 'lognested', 'lognested_mev_mu', 'nestedMevMu', 'mev+get_mev_for_nested']
+    if kind == 'cnl':
+        return ['logit', 'cnl', 'logcnl', 'cnlmu', 'logcnl_avail', 'logmev+get_mev_for_cross_nested_mu']
+    return ['logit', 'loglogit', 'mev', 'logmev']
+
+
+def _with_two(structs, pick):
+    """indices of the structures in which some nest holds >= 2 alternatives"""
+    return [i for i, (_, nests) in enumerate(structs) if any(len(n) >= 2 for n in nests)]
+
+
+def _rot(seq, start, n):
+    """n entries of seq, evenly spread, starting at a position that rotates with the seed"""
+    seq = list(seq)
+    if n >= len(seq):
+        return seq
+    step = max(1, len(seq) // n)
+    return [seq[(start + k * step) % len(seq)] for k in range(n)]
+
+
+def hist_contexts(alph, tier, seed):
+    """The contexts (structure, parameters, forms) on which the histories are enumerated.
+    quick: nested: every J=2 structure with a nest + 3 J=3 structures with a nest of >= 2 alternatives; cnl (2 nests):
+    3 J=2 + 2 J=3 structures with a cross membership; user MEV (4 entry points): every J=2 generator, every third J=3.
+    thorough: every J<=3 nested structure with a nest + 3 J=4; cnl: 10 J=2 + 8 J=3 + 2 J=4; user MEV: every generator
+    J <= 3, every fifth J=4."""
+    quick = tier == 'quick'
+    seed = int(seed)
+    out = []
+    sc = alph['scale'][1]
+    n = 0
+    for J in (2, 3) if quick else (2, 3, 4):
+        alts = alph['labels'][:J]
+        structs = R.nested_structures(alts)
+        idx = [i for i, (_, nests) in enumerate(structs) if nests]
+        if J == 3 and quick:
+            idx = _rot(_with_two(structs, 0), seed, 3)
+        elif J == 4:
+            idx = _rot(_with_two(structs, 0), seed, 3)
+        for si in idx:
+            alone, nests = structs[si]
+            mus = [alph['mus'][1 + (si + k) % 2] for k in range(len(nests))]
+            forms = dict(av=('var', 'none', 'var')[n % 3], syntax=('obj', 'tuple')[n % 2], p=PFORMS[(n + 1) % 4],
+                         mu=MUFORMS[n % 4])
+            out.append(dict(kind='nested', J=J, si=si, alone=list(alone), nests=[list(x) for x in nests], mus=mus, mu=sc,
+                            forms=forms))
+            n += 1
+    for J, cnt in ((2, 3), (3, 2)) if quick else ((2, 10), (3, 8), (4, 2)):
+        alts = alph['labels'][:J]
+        structs = R.cnl_structures(alts, 2, alph['splits'][:1] if J > 2 else alph['splits'])
+        cross = [i for i, (_, nests) in enumerate(structs) if sum(len(x) for x in nests) > J - len(structs[i][0])]
+        for si in _rot(cross, seed, cnt):
+            alone, nests = structs[si]
+            mus = [alph['mus'][1 + (si + k) % 2] for k in range(2)]
+            forms = dict(av=('var', 'var', 'none')[n % 3], syntax=('obj', 'tuple')[n % 2], p=PFORMS[(n + 1) % 4],
+                         mu=MUFORMS[n % 4], alpha=ALPHAFORMS[n % 3])
+            out.append(dict(kind='cnl', J=J, si=si, alone=list(alone), nests=[dict(x) for x in nests], mus=mus, mu=sc,
+                            forms=forms))
+            n += 1
+    for J in (2, 3) if quick else (2, 3, 4):
+        for gi, (gen, gmu) in enumerate(usermev_generators(alph, J)):
+            if (J == 4 and gi % 5) or (quick and J == 3 and (gi + seed) % 3):
+                continue
+            out.append(dict(kind='usermev', J=J, si=gi, gen=gen, gmu=gmu, forms=dict(av=('var', 'none')[gi % 2])))
+    return out
+
+
+class HistContext:
+    """One context: the table, the database, the reference values; new_args() builds one fresh set of argument objects."""
+
+    def __init__(self, alph, ctx, tier, seed):
+        self.alph, self.ctx, self.tier, self.seed = alph, ctx, tier, seed
+        self.kind = ctx['kind']
+        self.J = ctx['J']
+        self.alts = alph['labels'][:self.J]
+        self.f = dict(default_forms(), **ctx.get('forms', {}))
+        self.table = std_table(alph, self.J, 2, tier, aform=self.f['av'], one_shift=True)
+        extra = user_logGi_columns(self.base_spec('mev'), self.table) if self.kind == 'usermev' else None
+        self.db = self.table.database(extra)
+        self._refs = {}
+
+    def base_spec(self, model):
+        c = self.ctx
+        if model in ('logit', 'loglogit'):
+            return dict(kind='logit', alts=self.alts, forms=dict(av=self.f['av']), model=model)
+        if self.kind == 'usermev':
+            return dict(kind='usermev', alts=self.alts, gen=c['gen'], gmu=c['gmu'], forms=c['forms'], model=model)
+        spec = dict(kind=self.kind, alts=self.alts, alone=c['alone'], nests=c['nests'], mus=c['mus'], forms=c['forms'],
+                    model=model)
+        if uses_mu(model):
+            spec['mu'] = c['mu']
+        return spec
+
+    def ref(self, spec):
+        k = (spec['kind'], spec.get('mu'))
+        if k not in self._refs:
+            self._refs[k] = ref_spec_probs(spec, self.table)
+        return self._refs[k]
+
+    def new_args(self):
+        from biogeme.expressions import Variable
+        c, f, alts = self.ctx, self.f, self.alts
+        A = dict(V=build_util(alts, 'var', self.table.us[0]), av=build_av(alts, f['av'], self.table.pats[0]),
+                 nests=None, mu=None, log_gi=None, choice=Variable('CH'))
+        if self.kind == 'nested':
+            A['nests'] = build_nested_nests(alts, (c['alone'], c['nests']), c['mus'], f['syntax'], f['p'])
+        elif self.kind == 'cnl':
+            A['nests'] = build_cnl_nests(alts, (c['alone'], c['nests']), c['mus'], f['syntax'], f['p'], f['alpha'])
+        else:
+            A['log_gi'] = {a: Variable(f'LG_{a}') for a in alts[1:] + alts[:1]}
+        if self.kind != 'usermev':
+            A['mu'] = _param(f['mu'], 'mu_scale', c['mu'])
+        return A
+
+    def call(self, model, A, choice, log_gi=None):
+        if model in ('mev', 'logmev'):
+            log_gi = A['log_gi']
+        return build_model(model, A['V'], A['av'], A['nests'], choice, A['mu'], log_gi)
+
+    def evaluate(self, expr):
+        import numpy as np
+        vals = expr.get_value_c(database=self.db, prepare_ids=True)
+        return np.asarray(vals, dtype=float).reshape(-1, self.J)
+
+
+def run_history(hc, history, rec, eval_all=False):
+    """history = [[entry point, 'var' | 'loop', order], ...].  'var': one call, the choice is the data column; 'loop':
+    one call per alternative in the given order with the alternative as constant choice (for a model assembled from a
+    ln G_i helper the helper is called once and its dict is used by every call of the loop).  All calls are made first,
+    with ONE set of argument objects; then the last expression(s) (all of them if eval_all, and the probability / log
+    partner of the last one) are evaluated and checked against every clause."""
+    import numpy as np
+    alts = hc.alts
+    hist_case = dict(ctx=hc.ctx, history=history, seed=hc.seed, tier=hc.tier, eval_all=eval_all)
+    try:
+        A = hc.new_args()
+        built = []
+        for model, mode, order in history:
+            if mode == 'var':
+                built.append([hc.call(model, A, A['choice'])])
+            else:
+                lg = None
+                if '+' in model:
+                    lg = call_helper(model.split('+')[1], A['V'], A['av'], A['nests'], A['mu'])
+                built.append([(a, hc.call(model, A, a, lg)) for a in order])
+        last = len(history) - 1
+        todo = [k for k in range(len(history)) if eval_all or k == last or
+                LOG_OF.get(history[k][0]) == history[last][0] or LOG_OF.get(history[last][0]) == history[k][0]]
+        results = {}
+        for k in todo:
+            model, mode, order = history[k]
+            if mode == 'var':
+                vals = hc.evaluate(built[k][0])
+            else:
+                vals = np.full((len(hc.table.groups), hc.J), np.nan)
+                for a, e in built[k]:
+                    j = alts.index(a)
+                    vals[:, j] = hc.evaluate(e)[:, j]
+            results[k] = vals
+    except Exception as e:  # every history is made of valid calls
+        if isinstance(e, RuntimeError):
+            rec.retire = True
+        grp = hc.table.describe_group(0)
+        rec.violation(f'{ID}|model-raises-{type(e).__name__}|history|{HIST_TAG}',
+                      f'the history {history} of calls made with one set of argument objects raised {type(e).__name__}: '
+                      f'{str(e)[:300]} (context {hc.ctx})', dict(part='hist', hist=dict(hist_case, step=0, later=True), group=grp),
+                      expected='probabilities', observed=repr(e)[:300])
+        rec.case(None, ('raised', json.dumps(history), type(e).__name__), outcome=('history', 'raised'))
+        return
+    specs = {}
+    for k, vals in results.items():
+        model, mode, order = history[k]
+        later = k > 0 or mode == 'loop'
+        spec = dict(hc.base_spec(model), hist=dict(hist_case, step=k, later=later))
+        specs[k] = spec
+        bad = check_values(spec, hc.table, vals, hc.ref(spec), rec, log_model=model in LOG_OF)
+        record_cases(spec, hc.table, vals, bad, rec)
+    for k, vals in results.items():
+        pm = LOG_OF.get(history[k][0])
+        if pm is None:
+            continue
+        for k2, vals2 in results.items():
+            if history[k2][0] == pm:
+                compare_log_pair(specs[k], hc.table, vals2, vals, rec)
+    rec.count('histories')
+
+
+def _int_keys(obj):
+    """a context read back from a replay file (JSON turned the alternative ids used as dict keys into strings)"""
+    if isinstance(obj, dict):
+        return {(int(k) if isinstance(k, str) and k.lstrip('-').isdigit() else k): _int_keys(v) for k, v in obj.items()}
+    if isinstance(obj, list):
+        return [_int_keys(v) for v in obj]
+    return obj
+
+
+def loop_orders(alts, tier):
+    """call orders of the per-alternative loop: the rotations of the list of alternatives (every alternative at every
+    position of the loop); thorough: every permutation for J <= 3"""
+    if tier == 'thorough' and len(alts) <= 3:
+        return [list(p) for p in itertools.permutations(alts)]
+    return [list(alts[k:] + alts[:k]) for k in range(len(alts))]
+
+
+def hist_histories(hc, task):
+    E = hist_entries(hc.kind)
+    sub = task['sub']
+    loops = lambda ys: [[[E[y], 'loop', o]] for y in ys for o in loop_orders(hc.alts, hc.tier)]
+    pairs = lambda xs: [[[E[x], 'var', None], [y, 'var', None]] for x in xs for y in E]
+    if sub == 'loops':
+        return loops(task['ys'])
+    if sub == 'pairs':
+        return pairs(task['xs'])
+    if sub == 'small':
+        return loops(range(len(E))) + pairs(range(len(E)))
+    if sub == 'loop_pairs':
+        # a whole loop, then a call of another entry point, and the other way round
+        o = loop_orders(hc.alts, 'quick')[1]
+        C = hist_core_entries(hc.kind)
+        out = []
+        for x in C:
+            for y in C:
+                out.append([[x, 'loop', o], [y, 'var', None]])
+                out.append([[x, 'var', None], [y, 'loop', o]])
+        return out
+    if sub == 'triples':
+        C = hist_core_entries(hc.kind)
+        return [[[C[x], 'var', None], [y, 'var', None], [z, 'var', None]] for x in task['xs'] for y in C for z in C]
+    raise ValueError(sub)
+
+
+def hist_tasks(alph, tier, seed):
+    t = []
+    quick = tier == 'quick'
+    seen_kind = set()
+    for ci, ctx in enumerate(hist_contexts(alph, tier, seed)):
+        E = hist_entries(ctx['kind'])
+        if len(E) <= 4:
+            t.append(dict(part='hist', ci=ci, sub='small', seed=seed, tier=tier))
+        else:
+            t.append(dict(part='hist', ci=ci, sub='loops', ys=list(range(len(E))), seed=seed, tier=tier))
+            for ch in _chunks(range(len(E)), 6 if quick else 3):
+                t.append(dict(part='hist', ci=ci, sub='pairs', xs=ch, seed=seed, tier=tier))
+        first = (ctx['kind'], ctx['J']) not in seen_kind
+        seen_kind.add((ctx['kind'], ctx['J']))
+        if not quick and first and ctx['J'] <= 3:
+            t.append(dict(part='hist', ci=ci, sub='loop_pairs', seed=seed, tier=tier))
+            C = hist_core_entries(ctx['kind'])
+            for ch in _chunks(range(len(C)), 2):
+                t.append(dict(part='hist', ci=ci, sub='triples', xs=ch, seed=seed, tier=tier))
+    return t
+
+
+def _part_hist(task, alph, rec):
+    ctx = hist_contexts(alph, task['tier'], task['seed'])[task['ci']]
+    hc = HistContext(alph, ctx, task['tier'], task['seed'])
+    eval_all = task['tier'] == 'thorough'
+    hs = hist_histories(hc, task)
+    for h in hs:
+        run_history(hc, h, rec, eval_all)
+    rec.sample(dict(part='hist', sub=task['sub'], context=ctx, histories=len(hs), first=hs[0], last=hs[-1]))
 
 
 # --------------------------------------------------------------------------- ordered models
@@ -994,6 +1365,12 @@ def replay(case):
     rec = Rec()
     if case['part'] == 'ordered':
         check_ordered(case['model'], case['cats'], case['xs'], case['t1'], case['ds'], rec, case['vform'], case.get('tail', False))
+        return rec.violations
+    if case['part'] == 'hist':
+        h = case['hist']
+        alph = alphabet(h['seed'])
+        hc = HistContext(alph, _int_keys(h['ctx']), h['tier'], h['seed'])
+        run_history(hc, h['history'], rec, h.get('eval_all', False))
         return rec.violations
     spec = case['spec']
     grp, base = case['group'], case['base']
